@@ -247,4 +247,112 @@ def siteOf (files : List SrcFile) : Site :=
 
 def site (v : Variant) (enum : List SrcFile) : Site := siteOf (parseOrder v enum)
 
+/-! ### include files (`FortranReader.include`) -/
+
+/-- char-list literal (string literals are byte arrays in this Lean version; `"..".toList` is slow to
+    unfold inside `simp`/`decide` on long tables) -/
+macro "cs! " s:str : term => do
+  let elems := s.getString.toList.toArray.map fun c => Lean.Syntax.mkCharLit c
+  `([$elems,*])
+
+/-- `for b in [os.path.dirname(self.name)] + self.inc_dirs: if os.path.isfile(join(b, name)): break`:
+    the directory of the including file is probed first, then the include directories in the order the
+    reader keeps them; the first directory that holds the file wins.  `has d` = "`d` holds the file". -/
+def resolveInclude (has : Str → Bool) (own : Str) (dirs : List Str) : Option Str :=
+  (own :: dirs).find? has
+
+/-- `self.inc_dirs` of the reader: the configured list as given (`ordered`), or the list pushed through a
+    hash-ordered collection whose iteration order `ω` is an adversarial input. -/
+def incDirsKept (ordered : Bool) (ω : List Str → List Str) (cfg : List Str) : List Str :=
+  if ordered then cfg else ω cfg
+
+/-- the include file the working tree documents (switch generated from the AST of `FortranReader`) -/
+def resolveIncludeTree (ω : List Str → List Str) (has : Str → Bool) (own : Str) (cfg : List Str) : Option Str :=
+  resolveInclude has own (incDirsKept Gen.C12.incDirsOrdered ω cfg)
+
+/-! ### inherited components and type-bound procedures (`FortranType.correlate`) -/
+
+/-- a component or a type-bound procedure of a derived type: its name and whether it is `private` -/
+structure Binding where
+  name : Str
+  priv : Bool
+deriving DecidableEq, Repr
+
+/-- `not all(bp.name.lower() != b.name.lower() for b in self.boundprocs)` -/
+def overrides (own : List Binding) (bp : Binding) : Bool :=
+  own.any (fun b => lower b.name == lower bp.name)
+
+/-- the bindings of the parent type that the child shows as its own: not private, not overridden,
+    *in the parent's order* -/
+def inheritedBindings (parent own : List Binding) : List Binding :=
+  parent.filter (fun bp => !bp.priv && !overrides own bp)
+
+/-- `self.boundprocs = inherited + self.boundprocs`.  `ordered`: the loop that collects `inherited`
+    walks the parent's list; otherwise it walks a hash-ordered collection (iteration order `ω`). -/
+def typeBindings (ordered : Bool) (ω : List Binding → List Binding) (parent own : List Binding) : List Binding :=
+  (if ordered then inheritedBindings parent own else ω (inheritedBindings parent own)) ++ own
+
+/-- `self.variables = [v for v in extends.variables if v.permission == "public"] + self.variables` -/
+def typeComps (ordered : Bool) (ω : List Binding → List Binding) (parent own : List Binding) : List Binding :=
+  (if ordered then parent.filter (fun c => !c.priv) else ω (parent.filter (fun c => !c.priv))) ++ own
+
+/-- a whole inheritance chain, root type first (a parent is correlated before its children, so the
+    child sees the parent's list with what the parent inherited itself) -/
+def chainBindings (ordered : Bool) (ω : List Binding → List Binding) (levels : List (List Binding)) : List Binding :=
+  levels.foldl (fun acc own => typeBindings ordered ω acc own) []
+
+def chainComps (ordered : Bool) (ω : List Binding → List Binding) (levels : List (List Binding)) : List Binding :=
+  levels.foldl (fun acc own => typeComps ordered ω acc own) []
+
+/-! ### hash-ordered collections turned into sequences
+
+  `Gen.C12.hashIterSites` lists every place in `ford/*.py` where an expression that is syntactically a
+  hash-ordered collection (a `set(...)`, a set literal / comprehension, a set operator on such or on a
+  dict view, a local name or an attribute of the same file bound to one of these) is iterated, converted
+  to a list / tuple, joined, mapped or unpacked — with a flag "goes through `sorted(...)`".  The unsorted
+  ones have been looked at one by one: -/
+
+/-- unsorted sites whose iteration order cannot reach the output -/
+def reviewedHashIterSites : List Str := [
+  -- the loop only inserts into other sets / dicts keyed by the element (`self.uses.add(n)`, `n.used_by.add(self)`);
+  -- the node objects it creates ask for identifiers: that order is covered by the replay of the real
+  -- request trace through `number` and by the numbering theorems
+  cs! "graphs.py:ModNode.__init__: for obj.uses",
+  cs! "graphs.py:ProcNode.__init__: for getattr(obj, 'uses', [])",
+  cs! "graphs.py:ProgNode.__init__: for obj.uses",
+  cs! "graphs.py:BlockNode.__init__: for obj.uses",
+  -- `calls` is the list attribute of a Fortran entity here (same attribute name as the set of a graph node);
+  -- the function returns a set
+  cs! "graphs.py:get_call_nodes: for calls",
+  -- one graph object is built per element and stored on the element; nothing is emitted in loop order
+  cs! "graphs.py:GraphManager.graph_all: for self.blockdata",
+  -- one task per element, every task writes its own files: `parallel_irrelevant`
+  cs! "graphs.py:GraphManager.output_graphs: for self.modules",
+  cs! "graphs.py:GraphManager.output_graphs: for self.types",
+  cs! "graphs.py:GraphManager.output_graphs: for self.procedures",
+  cs! "graphs.py:GraphManager.output_graphs: for self.programs",
+  cs! "graphs.py:GraphManager.output_graphs: for self.sourcefiles",
+  cs! "graphs.py:GraphManager.output_graphs: for self.blockdata",
+  cs! "graphs.py:GraphManager.output_graphs: comprehension self.modules",
+  cs! "graphs.py:GraphManager.output_graphs: comprehension self.types",
+  cs! "graphs.py:GraphManager.output_graphs: comprehension self.procedures",
+  cs! "graphs.py:GraphManager.output_graphs: comprehension self.programs",
+  cs! "graphs.py:GraphManager.output_graphs: comprehension self.sourcefiles",
+  cs! "graphs.py:GraphManager.output_graphs: comprehension self.blockdata",
+  -- the extension list is only used for membership tests and to build glob patterns whose hits go into a set
+  cs! "settings.py:ProjectSettings.__post_init__: list() set(self.extensions) | set(self.fpp_extensions)",
+  -- `self.uses` is still the *list* of (module, only-list) pairs when these loops run; it is replaced by a
+  -- set afterwards (that set is iterated by the `use_list` template macro: `usesIterSorted`)
+  cs! "sourceform.py:FortranCodeUnit.correlate: for self.uses",
+  cs! "sourceform.py:FortranBlockData.correlate: for self.uses",
+  cs! "sourceform.py:FortranBlockData.correlate: comprehension self.uses"
+]
+
+/-- unsorted sites whose order does reach the output: each is an open finding of `known_findings/C12.json` -/
+def defectiveHashIterSites : List Str := [
+  -- C12-inheritedby-children-set-order: edges of the "inherited by" graph follow the iteration order of a set
+  cs! "graphs.py:InheritedByGraph.add_node: for node.children"
+]
+
+
 end Ford.Order
